@@ -41,10 +41,20 @@ Probes == <<
   P({"C08", "C04"}, <<97,98,115,40,38,41>>, {ErrS({"syntax"})}),
   P({"C08", "C04"}, <<97,98,115,40,97,44,41>>, {ErrS({"syntax"})}),
   P({"C08", "C04"}, <<108,101,110,103,116,104,40,97,44>>, {ErrS({"syntax"})}),
+  \* C19: every binding of a let is evaluated (a failing one fails the let), also when a later binding repeats its name
+  P({"C19"}, <<108,101,116,32,36,97,32,61,32,36,110,111,112,101,44,32,36,97,32,61,32,96,49,96,32,105,110,32,36,97>>, {Err("undefined-variable")}),
+  P({"C19"}, <<108,101,116,32,36,97,32,61,32,97,98,115,40,39,120,39,41,44,32,36,97,32,61,32,96,49,96,32,105,110,32,36,97>>, {Err("invalid-type")}),
   \* C02: invalid-value only for negative or non-integral counts and offsets -- not for integral ones beyond 2^63
   P({"C02"}, <<115,112,108,105,116,40,39,97,44,98,39,44,32,39,44,39,44,32,96,57,50,50,51,51,55,50,48,51,54,56,53,52,55,55,53,56,48,56,96,41>>, {Arr(<<Str(<<97>>), Str(<<98>>)>>)}),
   P({"C02"}, <<102,105,110,100,95,102,105,114,115,116,40,39,97,98,99,39,44,32,39,98,39,44,32,96,45,49,101,51,48,96,41>>, {JInt(1)}),
   P({"C02"}, <<114,101,112,108,97,99,101,40,39,97,98,99,39,44,32,39,98,39,44,32,39,120,39,44,32,96,49,101,51,48,96,41>>, {Str(<<97,120,99>>)}) >>
+
+\* C09: time polynomial in the length of the expression, the size of the document and of the result.
+\* Families pre^d core post^d whose value stays tiny while the evaluation doubles with every level
+\* (the harness measures d = 12, 14, 16, 18 and reports growth that is exponential, not polynomial)
+Growth == << [family |-> "shared-structure-eq", pre |-> <<91,64,44,64,93,124>>, core |-> <<64,61,61,64>>, post |-> <<>>, doc |-> JInt(1), adm |-> {JTrue}],
+             [family |-> "shared-structure-contains", pre |-> <<91,64,44,64,93,124>>, core |-> <<99,111,110,116,97,105,110,115,40,91,64,93,44,64,41>>, post |-> <<>>, doc |-> JInt(1), adm |-> {JTrue}],
+             [family |-> "root-filter-nest", pre |-> <<36,91,63>>, core |-> <<96,116,114,117,101,96>>, post |-> <<93>>, doc |-> Arr(<<JInt(1), JInt(2)>>), adm |-> {Arr(<<JInt(1), JInt(2)>>)}] >>
 
 VARIABLES bucket, idx
 Init == bucket \in 1..Len(Probes) /\ idx = 0
@@ -55,6 +65,12 @@ Check == idx > 0 =>
   LET pr == Probes[bucket]
       case == [p |-> Prop, kind |-> "search", doc |-> Doc, expr |-> pr.e, adm |-> pr.adm]
   IN /\ (Emit /\ Prop \in pr.props) => PrintT("CASE " \o ToJson(case))
+     /\ (Emit /\ Prop = "C09" /\ bucket <= Len(Growth)) =>
+           PrintT("CASE " \o ToJson([p |-> Prop, kind |-> "expgrowth"] @@ Growth[bucket]))
+     \* the small members of the growth families have the stated value in the specification
+     /\ Named(bucket > Len(Growth) \/ \A d \in 1..3 : LET g == Growth[bucket]
+                                                           rp(x, n) == IF n = 1 THEN x ELSE IF n = 2 THEN x \o x ELSE x \o x \o x
+                                                       IN AdmissibleText(rp(g.pre, d) \o g.core \o rp(g.post, d), g.doc) = g.adm, "GrowthFamiliesAreConstant")
      \* every probe is a text the specification accepts
      /\ Named(Len(pr.e) > 15000 \/ (\A o \in StaticAdmissibleText(pr.e) : o.ok) \/ pr.adm = {ErrS({"syntax"})}, "ProbesAreWellFormed")
      \* the malformed calls are outside the grammar in the specification too
